@@ -41,13 +41,15 @@ GRIDCFG = ['one-uniform', 'one-log', 'two-nested-uniform', 'two-offgrid-uniform'
            # ends see its edge value, exactly as the full computation does at those wavenumbers
            'two-narrow-uniform', 'two-narrow-log',
            # collision-induced absorption tabulated on its own, much coarser wavenumber grid
-           'one-uniform-cia', 'one-log-cia']
+           'one-uniform-cia', 'one-log-cia',
+           # ... and on a much finer grid than the molecules' (64 collision points per native spacing)
+           'one-uniform-finecia', 'one-log-finecia']
 MAGS = {'thin': 1e-31, 'tau1': 1e-27, 'mixed': 1.0, 'band': 1.0}
 
 
 def install(cfg, mag, kind):
     from taurex.cache import OpacityCache
-    gk = 'log' if cfg.endswith('log') else 'uniform'
+    gk = 'log' if ('-log' in cfg) else 'uniform'
     nat = native(gk)
     per = None
     m = MAGS[mag] * (0.3 if kind == 'emission' else 1.0)
@@ -63,6 +65,12 @@ def install(cfg, mag, kind):
     OpacityCache().add_opacity(fx.TinyOp('H2O', nat, TG, PG, t1))
     grids = {'H2O': nat}
     tabs = {'H2O': t1}
+    if cfg.endswith('-finecia'):
+        from taurex.cache import CIACache
+        cw = np.concatenate([nat[:-1, None] + (nat[1:, None] - nat[:-1, None]) * (np.arange(64) / 64.0)[None, :]], axis=0).ravel()
+        cw = np.concatenate([[nat[0] - 7.0], cw, [nat[-1], nat[-1] + 7.0]])
+        cx = 10 ** fx.rng('c13finecia').uniform(-0.7, 0.7, size=(3, len(cw))) * (1e-54 if kind != 'emission' else 3e-56)
+        CIACache().add_cia(fx.TinyCIA('H2-He', cw, [100.0, 1000.0, 3500.0], cx))
     if cfg.endswith('-cia'):
         from taurex.cache import CIACache
         cw = coarse('off', nat)
@@ -90,7 +98,7 @@ def build(case):
         gases.append(['CH4', ['const', 1e-4]])
     if 'coarsefirst' in case['cfg']:
         gases.reverse()
-    contribs = ['abs', 'ray'] + ([['cia', ['H2-He']]] if case['cfg'].endswith('-cia') else [])
+    contribs = ['abs', 'ray'] + ([['cia', ['H2-He']]] if case['cfg'].endswith('cia') else [])
     spec = {'kind': case['kind'], 'N': 4, 'T': ['dec'], 'gases': gases, 'contribs': contribs, 'ngauss': 2}
     return fx.build_model(spec)
 
